@@ -1727,6 +1727,13 @@ fn rate_to_n_alpha(rate: f32) -> (u64, f64) {
     (inv_rate_int, (inv_rate_int + 1) as f64 - inv_rate)
 }
 
+/// Verification hook (only with `--cfg metrique_verif`): the private `rate_to_n_alpha`.
+#[cfg(metrique_verif)]
+#[doc(hidden)]
+pub fn verif_rate_to_n_alpha(rate: f32) -> (u64, f64) {
+    rate_to_n_alpha(rate)
+}
+
 fn rate_to_n<R: RngCore>(rate: f32, rng: &mut R) -> u64 {
     if rate < 1.0 / (i64::MAX as f32) {
         u64::MAX
